@@ -1,6 +1,6 @@
 //! Whole runs of find against the composed specification (spec/FindSem.tla): random trees with measured
 //! attributes x random expressions over real tests and output actions.
-//! Input: {tree, roots, cfg, words:[{k:"op",t} | {k:"test",t:{..}} | {k:"glob",on,pat,fold} | {k:"const",v} | {k:"prune"} | {k:"quit"}
+//! Input: {tree, roots, cfg, words:[{k:"op",t} | {k:"test",q:{..}} | {k:"glob",on,pat,fold} | {k:"const",v} | {k:"prune"} | {k:"quit"}
 //!         | {k:"print",delim} | {k:"printf",fmt}]}
 //! Observation: {out:[bytes], exit, attrs:[..]}
 use super::pglob::cps_to_string;
@@ -64,7 +64,7 @@ pub fn word_args(w: &Value, tree: &[Node], a: &mut Vec<String>) {
             a.push(cps_to_string(&w["pat"]));
         }
         "test" => {
-            let t = &w["t"];
+            let t = &w["q"];
             let p = t["p"].as_str().unwrap_or("");
             match p {
                 "type" | "xtype" => {
@@ -168,13 +168,13 @@ impl Prop for PSem {
                     }
                 },
                 _ => match rng.below(10) {
-                    0 | 1 => json!({"k": "test", "t": {"p": "type", "c": *rng.pick(&["d", "f", "l", "p", "s"])}}),
-                    2 => json!({"k": "test", "t": {"p": "xtype", "c": *rng.pick(&["d", "f", "l"])}}),
-                    3 => json!({"k": "test", "t": {"p": "perm", "kind": *rng.pick(&["exact", "all", "any"]), "m": *rng.pick(&[0u64, 0o644, 0o755, 0o4000, 0o700, 0o111, 0o22, 0o777])}}),
-                    4 => json!({"k": "test", "t": {"p": *rng.pick(&["uid", "gid"]), "form": *rng.pick(&["eq", "gt", "lt"]), "n": *rng.pick(&[0u64, 1, 100, 1000, 54321])}}),
-                    5 => json!({"k": "test", "t": {"p": "size", "form": *rng.pick(&["eq", "gt", "lt"]), "n": *rng.pick(&[0u64, 1, 9, 10, 511, 4096])}}),
-                    6 => json!({"k": "test", "t": {"p": "empty"}}),
-                    7 => json!({"k": "test", "t": {"p": "samefile", "ref": 1 + rng.below(n)}}),
+                    0 | 1 => json!({"k": "test", "q": {"p": "type", "c": *rng.pick(&["d", "f", "l", "p", "s"])}}),
+                    2 => json!({"k": "test", "q": {"p": "xtype", "c": *rng.pick(&["d", "f", "l"])}}),
+                    3 => json!({"k": "test", "q": {"p": "perm", "kind": *rng.pick(&["exact", "all", "any"]), "m": *rng.pick(&[0u64, 0o644, 0o755, 0o4000, 0o700, 0o111, 0o22, 0o777])}}),
+                    4 => json!({"k": "test", "q": {"p": *rng.pick(&["uid", "gid"]), "form": *rng.pick(&["eq", "gt", "lt"]), "n": *rng.pick(&[0u64, 1, 100, 1000, 54321])}}),
+                    5 => json!({"k": "test", "q": {"p": "size", "form": *rng.pick(&["eq", "gt", "lt"]), "n": *rng.pick(&[0u64, 1, 9, 10, 511, 4096])}}),
+                    6 => json!({"k": "test", "q": {"p": "empty"}}),
+                    7 => json!({"k": "test", "q": {"p": "samefile", "ref": 1 + rng.below(n)}}),
                     8 => {
                         // a path pattern: "*/NAME" or "*NAME*"
                         let nm = rng.pick(&names).clone();
@@ -204,6 +204,10 @@ impl Prop for PSem {
         }
         v["words"] = json!(words);
         v
+    }
+
+    fn same(&self, exp: &Value, obs: &Value) -> bool {
+        obs.get("panic").is_none() && obs["exit"].as_i64() == Some(0) && json_to_bytes(&exp["out"]) == json_to_bytes(&obs["out"])
     }
 
     fn corrupt(&self, obs: &Value) -> Option<Value> {
